@@ -27,7 +27,7 @@ ASSUMPTIONS = ['own interpolation / slerp reference agrees with the documented b
                'shortest-arc SLERP)', 'rounding bound 1e-7 output units for interpolation at own nodes',
                'at an angle difference of exactly +-180 the closed end -180 is accepted (half-open range and '
                'antisymmetry contradict each other there)']
-REQUIRED_OBS = ['resample_large_time_origin', 'resample_near_stamps', 'unwrapped_angle_tables', 'unwrapped_angle_series', 'antimeridian_perturbations', 'antisymmetry', 'swap_branch_taken', 'self_difference', 'subsample_difference', 'reference_compared',
+REQUIRED_OBS = ['resample_bool_object_columns', 'resample_large_time_origin', 'resample_near_stamps', 'unwrapped_angle_tables', 'unwrapped_angle_series', 'antimeridian_perturbations', 'antisymmetry', 'swap_branch_taken', 'self_difference', 'subsample_difference', 'reference_compared',
                 'angle_range', 'resample_nodes', 'resample_slerp', 'perturb_recovered', 'to180_checked',
                 'series_pairs']
 REQUIRED_CLASSES = {'all': ['equal', 'nested', 'rates', 'partial', 'series', 'angles', 'resample']}
@@ -502,6 +502,24 @@ def run_case(case):
                     i = int(np.argmax(e))
                     fail('resample_value', f'column {c} at t={r1.index[i]}: got {r1[c].values[i]!r}, reference {ref[c].values[i]!r} '
                          f'({"shortest-arc slerp" if c in ("roll", "pitch", "heading") else "linear"})')
+        # (2b) "interpolates other columns linearly": also a validity flag stored as bool and a numeric column stored with dtype object
+        if len(t) >= 4:
+            stx = st.copy()
+            stx['flag'] = (np.arange(len(t)) % 3 == 0)
+            stx['quality'] = pd.Series(np.round(rng.uniform(0, 9, len(t)), 1), index=stx.index).astype(object)
+            tq2 = np.sort(rng.uniform(t[0], t[-1], 8))
+            try:
+                rx = transform.resample_state(stx, tq2)
+                bump('resample_bool_object_columns')
+                for c_, vals_ in (('flag', stx['flag'].values.astype(float)), ('quality', stx['quality'].values.astype(float))):
+                    exp_ = np.interp(tq2, t, vals_)
+                    got_ = np.asarray(rx[c_].values, dtype=float)
+                    if np.abs(got_ - exp_).max() > 1e-9 + tolc.get(cols[0], TOL):
+                        i_ = int(np.argmax(np.abs(got_ - exp_)))
+                        fail('resample_value', f'column {c_} (dtype {stx[c_].dtype}) at t={tq2[i_]!r}: got {got_[i_]!r}, linear interpolation gives {exp_[i_]!r}')
+                        break
+            except Exception as e_:
+                fail('exception', f'resample_state with a bool and an object-typed numeric column raised {type(e_).__name__}: {e_}')
         # (3) as many requested times as rows, each CLOSE to a stamp but not on it (a log regularised onto a grid, two receivers with slightly
         # different clocks): still interpolation, not the row itself
         frac = 10 ** rng.uniform(-7, -0.5)
